@@ -313,16 +313,22 @@ def pickle (h : Heap) (m : Ref) : R (Ref × Heap) :=
      | .error e => .error e)
   | .error e => .error e
 
+/-- Python list indexing: `0 ≤ i < n` is position `i`, `-n ≤ i < 0` is position `n + i`, anything else is an `IndexError` -/
+def resolveIdx (n : Nat) (i : Int) : Option Nat :=
+  if 0 ≤ i ∧ i < n then some i.toNat
+  else if -(n : Int) ≤ i ∧ i < 0 then some (i + n).toNat
+  else none
+
 /-- `[variants[k] for k in idxs]`; `none` when an index is out of range (`IndexError`) -/
-def selectVars (vs : List Ref) : List Nat → Option (List Ref)
+def selectVars (vs : List Ref) : List Int → Option (List Ref)
   | [] => some []
   | k :: ks =>
-    match vs[k]?, selectVars vs ks with
+    match (resolveIdx vs.length k).bind (fun j => vs[j]?), selectVars vs ks with
     | some v, some rest => some (v :: rest)
     | _, _ => none
 
 /-- `get_variant(idxs)` / `m[i]`: a new model object sharing the invariant and the selected variant objects -/
-def view (h : Heap) (m : Ref) (idxs : List Nat) : R (Ref × Heap) :=
+def view (h : Heap) (m : Ref) (idxs : List Int) : R (Ref × Heap) :=
   match getModel h m with
   | .ok (i, vs, _) =>
     (match selectVars vs idxs with
@@ -435,7 +441,7 @@ inductive Op
   | setTol (m : Ref) (eig : Bool) (x : Rat)
   | copy (m : Ref)
   | pickle (m : Ref)
-  | view (m : Ref) (idxs : List Nat)
+  | view (m : Ref) (idxs : List Int)
   deriving Repr, Inhabited
 
 def Op.target : Op → Ref
